@@ -129,8 +129,65 @@ func c24Exec(op string) string {
 			}
 		}
 		return "unknown-copy"
+	case "wd": // recorder.writeDuration on a real segment header: "<mvhd.DurationV0> ts=<mvhd.Timescale>"
+		f1, ok := verifutil.Funcs["recorder_writeDuration_mvhdDuration"].(func(int64) (int64, int64, error))
+		if !ok {
+			return "unknown-copy"
+		}
+		dv, ts, err := f1(verifutil.AtoI64(f[1]))
+		if err != nil {
+			return "err"
+		}
+		return fmt.Sprintf("%d ts=%d", dv, ts)
+	case "rh": // playback.segmentFMP4ReadHeader on a real header carrying <durationV0> <timescale>
+		f2, ok := verifutil.Funcs["playback_readHeader_duration"].(func(int64, int64) (int64, error))
+		if !ok {
+			return "unknown-copy"
+		}
+		d, err := f2(verifutil.AtoI64(f[1]), verifutil.AtoI64(f[2]))
+		if err != nil {
+			return "err"
+		}
+		return fmt.Sprintf("%d", d)
 	}
 	return "bad-op"
+}
+
+// inline conversions (round 2): durations that are whole milliseconds (where a float64 detour loses a unit),
+// around the uint32 limit of the mvhd field, arbitrary nanoseconds, negative, huge
+func c24GenInline(r *verifutil.Rand) []string {
+	if r.Bool() {
+		var d int64
+		switch r.Intn(8) {
+		case 0, 1, 2:
+			d = int64(r.Intn(100000)) * 1000000 // whole milliseconds up to 100 s
+		case 3:
+			d = int64(r.U64()%4294967296)*1000000 + int64(r.Intn(3)-1) // whole ms ± 1 ns, whole field range
+		case 4:
+			d = (4294967296+int64(r.Intn(2000))-1000)*1000000 + int64(r.Intn(1000000)) // around the field limit
+		case 5:
+			d = int64(r.U64() % (1 << 50))
+		case 6:
+			d = c24I64(r)
+		default:
+			d = int64(r.Intn(10000))*1000000 + int64(r.Intn(1000000))
+		}
+		return []string{"reset", fmt.Sprintf("wd %d", d)}
+	}
+	dur := int64(r.U64() % (1 << 32))
+	ts := c24Rate(r)
+	switch r.Intn(8) {
+	case 0:
+		ts = 1000
+	case 1:
+		ts = 0
+	case 2:
+		dur = []int64{0, 1, 4294967295, 4294967294, 1000, 1001}[r.Intn(6)]
+	}
+	if ts > math.MaxUint32 {
+		ts = math.MaxUint32
+	}
+	return []string{"reset", fmt.Sprintf("rh %d %d", dur, ts)}
 }
 
 var c24Rates = []int64{1, 2, 3, 1000, 8000, 11025, 16000, 22050, 44100, 48000, 90000, 96000, 192000, 1000000,
@@ -263,6 +320,17 @@ func c24Gen(r *verifutil.Rand, i int, thorough bool) []string {
 		}
 		return append([]string{"reset"}, c24Grid[i*c24GridChunk:hi]...)
 	}
+	// then every whole-millisecond duration up to 4 s through recorder.writeDuration, in chunks
+	if j := i - (len(c24Grid)+c24GridChunk-1)/c24GridChunk; j < 4000/c24GridChunk+1 {
+		ops := []string{"reset"}
+		for k := j * c24GridChunk; k < (j+1)*c24GridChunk && k <= 4000; k++ {
+			ops = append(ops, fmt.Sprintf("wd %d", int64(k)*1000000))
+		}
+		return ops
+	}
+	if r.Intn(8) == 0 {
+		return c24GenInline(r)
+	}
 	if r.Intn(4) == 0 {
 		c := c24Copies2[r.Intn(len(c24Copies2))]
 		var rate int64
@@ -329,6 +397,12 @@ func c24Class(op, impl string) string {
 	}
 	if impl == "panic" {
 		return f[0] + "/panic-zero-divisor"
+	}
+	if f[0] == "wd" || f[0] == "rh" {
+		if impl == "err" {
+			return f[0] + "/error"
+		}
+		return f[0] + "/value"
 	}
 	a := strings.Fields(impl)
 	if len(a) != 2 {
